@@ -96,6 +96,11 @@ func TxSizeForFee(tx Transaction) (int, error) {
 		dec, err := cbor.NewStreamDecoder(cborData)
 		if err == nil {
 			arrayLen, _, _, decodeErr := dec.DecodeArrayHeader()
+			if decodeErr != nil {
+				// DecodeArrayHeader does not support indefinite-length
+				// arrays; count the envelope's elements instead
+				arrayLen, decodeErr = cbor.ListLength(cborData)
+			}
 			if decodeErr == nil {
 				if arrayLen == 4 {
 					return fullSize - 1, nil
